@@ -47,19 +47,26 @@ def qc_case(draw, forced=False):
     max2 = 3 if (not aps or nq < 4) else 2
     if nq == 4:
         max2 = 2
+    if forced and aps:
+        max2 = 3
     gates = []
     n2 = 0
     n_gates = draw(st.integers(1, 7))
     plan = []
     if forced and nq >= 3:
         plan = draw(st.sampled_from([["3q", "2q"], ["3q", "2q", "2q"], ["2q", "swap", "2q"], ["1q", "3q", "1q", "2q"],
-                                     ["2q", "3q"], ["3q", "swap", "2q"]]))
+                                     ["2q", "3q"], ["3q", "swap", "2q"], ["2q", "2q", "swap", "2q"],
+                                     ["swap", "swap", "2q", "2q"], ["2q", "2q", "2q"]]))
+        # gates that happen to be the identity (rotations by exactly zero) in front of the entangling part
+        plan = ["rot0"] * draw(st.sampled_from([0, 0, 1, 1, 2])) + plan
     for i in range(max(n_gates, len(plan))):
         kind = plan[i] if i < len(plan) else draw(st.sampled_from(["1q", "1q", "rot", "2q", "2q", "swap", "3q"]))
         if kind == "1q":
             gates.append([draw(st.sampled_from(ONE_Q)), [draw(st.integers(0, nq - 1))], []])
         elif kind == "rot":
             gates.append([draw(st.sampled_from(ROT)), [draw(st.integers(0, nq - 1))], [draw(angle)]])
+        elif kind == "rot0":
+            gates.append([draw(st.sampled_from(ROT)), [draw(st.integers(0, nq - 1))], [draw(st.sampled_from([0.0, 0, -0.0]))]])
         elif kind == "2q" and n2 < max2:
             a = draw(st.integers(0, nq - 1))
             b = (a + draw(st.integers(1, nq - 1))) % nq
